@@ -137,6 +137,33 @@ async fn verif_replay_hist_lifecycle() {
             if r.is_err() && !changed.is_empty() { bad.push(format!("REPLAY-FAIL [E] {what} was rejected but changed tasks: {}", changed.join(", "))); }
         }
     }
+    // ---- scenario F: step1's act is completed; in step2 one act is skipped by the client while a further act waits behind it; a cancel aimed at step1's
+    //      act undoes step2: whatever it does to the OPEN tasks, a task that already ended (the skipped act) keeps its state
+    {
+        let workflow = Workflow::new().with_id("verif_f")
+            .with_step(|s| s.with_id("step1").with_act(Act::irq(|a| a.with_key("f1"))))
+            .with_step(|s| s.with_id("step2").with_act(Act::irq(|a| a.with_key("f2"))).with_act(Act::irq(|a| a.with_key("f3"))));
+        let config = ConfigData { keep_processes: Some(true), ..ConfigData::default() };
+        let id = utils::longid();
+        let (engine, proc, _sig) = create_proc_signal_config::<Vec<String>>(&config, &workflow, &id).await;
+        let tids = Arc::new(Mutex::new(std::collections::HashMap::<String, String>::new()));
+        let t1 = tids.clone();
+        engine.channel().on_message(move |e| { if e.is_irq() && e.is_state(MessageState::Created) { t1.lock().unwrap().insert(e.key.clone(), e.tid.clone()); } });
+        engine.runtime().launch(&proc);
+        wait().await;
+        let f1 = tids.lock().unwrap().get("f1").cloned();
+        if let Some(f1) = f1 {
+            let _ = engine.executor().act().complete(&id, &f1, &Vars::new()); wait().await;
+            let f2 = tids.lock().unwrap().get("f2").cloned();
+            if let Some(f2) = f2 {
+                let _ = engine.executor().act().skip(&id, &f2, &Vars::new()); wait().await;
+                let s0 = verif_snapshot(&proc);
+                let _ = engine.executor().act().cancel(&id, &f1, &Vars::new()); wait().await;
+                let s1 = verif_snapshot(&proc);
+                verif_compare(&mut bad, "F", "cancel(f1) over a step with a skipped act", &s0, &s1);
+            } else { bad.push("REPLAY-FAIL [F] setup: act f2 did not open".to_string()); }
+        } else { bad.push("REPLAY-FAIL [F] setup: act f1 did not open".to_string()); }
+    }
     for b in bad.iter() { println!("{b}"); }
     assert!(bad.is_empty(), "{} lifecycle violation(s)", bad.len());
 }
